@@ -3,7 +3,7 @@
 From Coq Require Import ZArith NArith List Bool.
 Import ListNotations.
 From SV Require Import Common.Int32 C02deep.Syntax C02deep.Sem C02deep.Passes C02deep.ProofsSem C02deep.ProofsDce
-  C02deep.ProofsCcp C02deep.ProofsCcpWitness C02deep.ProofsLvn.
+  C02deep.ProofsCcp C02deep.ProofsCcpFull C02deep.ProofsCcpWitness C02deep.ProofsLvn C02deep.ProofsPipeline.
 Open Scope Z_scope.
 
 (* ---- the semantics ---- *)
@@ -60,29 +60,46 @@ Example C02deep_dce_nonvacuous :
 Proof. vm_compute. repeat split. Qed.
 
 (* ---- conditional constant propagation (conditional_constant_propagation.rs) ---- *)
-(* Full statement (what one would like):
-     forall w f f' fl, wf_func f = true -> ccp f = Some (f', fl) -> refines w f' f.
-   Proved: the statement on every path of the model except the two rewrites of the While case that RE-OPTIMISE
-   already optimised statements (the loop whose body ends in its only break is replaced by one iteration;
-   try_optimize_loop_for_some_iterations peels iterations with constant guards); the model reports on which
-   path it was (`fst fl`), so the excluded class is decidable and is evaluated for every function the check
-   sees.  For those two rewrites the statement is neither proved nor refuted here (the tie and the sanity runs
-   cover them).  `ccp f = None` models a Rust panic (checked_bind on a bound name) or the recursion bound. *)
-Theorem C02deep_ccp_preserves_partial : forall w f f' fl,
-  wf_func f = true -> ccp f = Some (f', fl) -> fst fl = false -> refines w f' f.
-Proof. exact (ccp_gen_preserves ver_now). Qed.
+(* The pass as it is now, including the two rewrites of the While case that RE-OPTIMISE already optimised
+   statements (the loop whose body ends in its only break is replaced by one iteration;
+   try_optimize_loop_for_some_iterations evaluates iterations whose outcome is known).
+   `ccp f = None` models a Rust panic (checked_bind on a bound name) or the recursion bound of the model.
+   The one hypothesis next to well-formedness, `no_dead_final_operands f` (Passes.v, decidable, evaluated and
+   counted by the check for every function it sees), is about UNREACHABLE code only.  It excludes the two
+   situations in which the pass leaves, after an unconditional Break, an operand that names a statement it
+   has dropped, so that its output is not well scoped any more:
+     Passes.dead_loop_values: a loop that is kept and still has loop variables, whose optimised body now
+       always ends in a Break: the loop values (never evaluated) may name statements after that Break;
+     Passes.dead_final_assignments: an if-else with final assignments one optimised branch of which now
+       always ends in a Break: that branch's side of the final assignments (never read) likewise.
+   Known finding (not repaired: behaviour is unaffected, the emitted code stays syntactically valid): the
+   emitted TypeScript then mentions a name that is declared nowhere, in dead code. *)
+Theorem C02deep_ccp_preserves : forall w f f' fl,
+  wf_func f = true -> no_dead_final_operands f -> ccp f = Some (f', fl) -> refines w f' f.
+Proof. exact ccp_preserves_named. Qed.
+(* ... and then the output is well formed again, so that the next pass / round may rely on its own theorem *)
+Theorem C02deep_ccp_wf : forall f f' fl,
+  wf_func f = true -> no_break_l (f_body f) = true -> no_dead_final_operands f -> ccp f = Some (f', fl) ->
+  wf_func f' = true.
+Proof. exact ccp_wf_named. Qed.
+(* the excluded situation exists, is flagged, is ill scoped, and is harmless *)
+Theorem C02deep_ccp_dead_code_ill_scoped_witness :
+  exists f f' fl, wf_func f = true /\ no_break_l (f_body f) = true /\ ccp f = Some (f', fl) /\
+                  dead_final_operands f = true /\ wf_func f' = false /\
+                  f_body f' = [SWhile [(3%N, EVar 1%N, EVar 8%N); (4%N, EVar 2%N, EVar 4%N)]
+                                 [SBin 5%N LT (EVar 4%N) (EVar 3%N); SSIf (EVar 5%N) false [SBreak (EInt 1)]; SBreak (EInt 2)]
+                                 (Some 7%N)] /\
+                  sem Add wit_world f [5; 3] 10 = Done 1 [] /\ sem Add wit_world f' [5; 3] 10 = Done 1 [] /\
+                  sem Add wit_world f [1; 3] 10 = Done 2 [] /\ sem Add wit_world f' [1; 3] 10 = Done 2 [].
+Proof. exact ccp_dead_code_ill_scoped_witness. Qed.
 
-(* the pass as it was before the repairs that followed three findings of this check: the same theorem holds
-   on the paths not flagged, and the flagged / composed behaviour was wrong: *)
-Theorem C02deep_ccp_old_preserves_partial : forall g w f f' fl,
-  wf_func f = true -> ccp_gen g f = Some (f', fl) -> fst fl = false -> refines w f' f.
-Proof. exact ccp_gen_preserves. Qed.
+(* the pass as it was before the repairs that followed three findings of this check was wrong: *)
 (* before 6cdc437: "the loop runs once" re-emitted a conditional Break outside of the loop *)
 Theorem C02deep_ccp_old_refuted :
   exists f f' fl, wf_func f = true /\ ccp_old f = Some (f', fl) /\ snd fl = true /\ ~ refines wit_world f' f.
 Proof. exact ccp_old_refuted. Qed.
 Theorem C02deep_ccp_repaired_on_old_witness :
-  exists f' fl, ccp wit_loop_once = Some (f', fl) /\ fl = (false, false) /\
+  exists f' fl, ccp wit_loop_once = Some (f', fl) /\ snd fl = false /\
                 sem Wrap wit_world f' [5; 3] 10 = Done 1 [] /\ sem Wrap wit_world f' [1; 3] 10 = Done 2 [].
 Proof. exact ccp_new_on_old_witness. Qed.
 (* before fef18b5: an unchanging loop variable was bound to its raw initial value *)
@@ -152,16 +169,16 @@ Proof. exact refines_add_refines. Qed.
 Theorem C02deep_dce_preserves_mode : forall m w f args fuel v tr,
   wf_func f = true -> sem m w f args fuel = Done v tr -> sem m w (dce f) args fuel = Done v tr.
 Proof. exact dce_preserves_mode. Qed.
-Theorem C02deep_ccp_preserves_add_partial : forall w f f' fl,
-  wf_func f = true -> ccp f = Some (f', fl) -> fst fl = false -> refines_add w f' f.
-Proof. exact (ccp_gen_preserves_add ver_now). Qed.
+Theorem C02deep_ccp_preserves_add : forall w f f' fl,
+  wf_func f = true -> no_dead_final_operands f -> ccp f = Some (f', fl) -> refines_add w f' f.
+Proof. exact ccp_preserves_add_named. Qed.
 Theorem C02deep_lvn_preserves_add : forall w f, wf_func f = true -> refines_add w (lvn f) f.
 Proof. exact lvn_preserves_add. Qed.
 
 (* one round ccp; lvn; dce and any number of them: the hypotheses on the intermediate functions are decidable
    and evaluated by the check for every function it sees *)
 Theorem C02deep_round : forall w f f1 fl,
-  wf_func f = true -> ccp f = Some (f1, fl) -> fst fl = false -> wf_func f1 = true -> wf_func (lvn f1) = true ->
+  wf_func f = true -> no_dead_final_operands f -> ccp f = Some (f1, fl) -> wf_func f1 = true -> wf_func (lvn f1) = true ->
   refines_add w (dce (lvn f1)) f.
 Proof. exact round_preserves. Qed.
 
@@ -196,8 +213,9 @@ Print Assumptions C02deep_alpha_invariance.
 Print Assumptions C02deep_strict_done_wrapping.
 Print Assumptions C02deep_dce_preserves.
 Print Assumptions C02deep_dce_refines.
-Print Assumptions C02deep_ccp_preserves_partial.
-Print Assumptions C02deep_ccp_old_preserves_partial.
+Print Assumptions C02deep_ccp_preserves.
+Print Assumptions C02deep_ccp_wf.
+Print Assumptions C02deep_ccp_dead_code_ill_scoped_witness.
 Print Assumptions C02deep_ccp_old_refuted.
 Print Assumptions C02deep_ccp_repaired_on_old_witness.
 Print Assumptions C02deep_ccp_old2_refuted.
@@ -209,6 +227,6 @@ Print Assumptions C02deep_sem_weaken.
 Print Assumptions C02deep_refines_add_trans.
 Print Assumptions C02deep_refines_add_refines.
 Print Assumptions C02deep_dce_preserves_mode.
-Print Assumptions C02deep_ccp_preserves_add_partial.
+Print Assumptions C02deep_ccp_preserves_add.
 Print Assumptions C02deep_lvn_preserves_add.
 Print Assumptions C02deep_round.
